@@ -1,21 +1,258 @@
 (** C16 — Constructors never panic, clamp not wrap; errored items never reach the wire.
     Only property theorems (closed by [exact]), their assumptions and non-vacuity examples.
     Model: Secs2/Construct.v (+ ConstructParse.v); proofs: Secs2/ConstructProofs.v;
-    tie: Gen/BridgeConstruct.v (translator) + differential through the public constructors. *)
+    tie: Gen/BridgeConstruct.v (translator: clampInt64, clampUint64, MaxByteSize) + differential
+    through the PUBLIC constructors (harness/cmd/c16, ocaml/c16_driver.ml).
+
+    "Never panic" is totality of the model functions plus the harness's recover around every real
+    call; the only indexing in the constructors ([values[0]] when the int32 size is 1) is
+    [C16_scalar_index_safe]. *)
 From Coq Require Import ZArith Bool List Lia.
 From GoSecs Require Import Base.GoInt Gen.Gen Gen.BridgeConstruct
   Secs2.ConstructParse Secs2.Construct Secs2.ConstructProofs.
 Import ListNotations.
 Open Scope Z_scope.
 
+(** ** The clamp of the model IS the clamp of the current source *)
+
 Theorem C16_bridge_clampInt64 : forall v lo hi, Gen.secs2.clampInt64 v lo hi = clamp lo hi v.
 Proof. exact bridge_clampInt64. Qed.
 Print Assumptions C16_bridge_clampInt64.
 
+Theorem C16_bridge_clampUint64 : forall v hi, 0 <= v -> Gen.secs2.clampUint64 v hi = clamp 0 hi v.
+Proof. exact bridge_clampUint64_clamp. Qed.
+Print Assumptions C16_bridge_clampUint64.
+
+(** [clamp lo hi v] is within bounds, the input when in range, and a NEAREST point of the range
+    otherwise — hence never [v mod 2^k] unless that is the same number. *)
 Theorem C16_clamp_nearest : forall lo hi v x, lo <= hi -> lo <= x <= hi ->
   Z.abs (clamp lo hi v - v) <= Z.abs (x - v).
 Proof. exact clamp_nearest. Qed.
 Print Assumptions C16_clamp_nearest.
 
-Example C16_clamp_nonvacuous : new_int 1 [AInt TInt 200] = IInt 1 1 [127] None.
-Proof. reflexivity. Qed.
+Theorem C16_clamp_in_range : forall lo hi v, lo <= v <= hi -> clamp lo hi v = v.
+Proof. exact clamp_id. Qed.
+
+Theorem C16_clamp_bounds : forall lo hi v, lo <= hi -> lo <= clamp lo hi v <= hi.
+Proof. exact clamp_bounds. Qed.
+
+(** ** Signed: every presentation (scalars of any integer type, slices, canonical decimal strings of
+    ANY magnitude, mixed) of the numbers [zs] yields an error-free item (up to the size cap) whose
+    values are [clamp (-2^(8w-1)) (2^(8w-1)-1)] of each number, in order. *)
+Theorem C16_clamp_int : forall w args zs, valid_w w -> denotes_all canon_dec args zs ->
+  Z.of_nat (length zs) < 2 ^ 31 ->
+  let it := new_int w args in
+  (error it = None <-> Z.of_nat (length zs) * w <= MaxByteSize) /\
+  type_code it = 10 + w /\ size_of it = Z.of_nat (length zs) /\
+  num_values it = map (clamp (int_lo w) (int_hi w)) zs.
+Proof. exact clamp_int_values. Qed.
+Print Assumptions C16_clamp_int.
+
+(** ** Unsigned: the same for non-negative numbers, bounds [0, 2^(8w)-1]. *)
+Theorem C16_clamp_uint : forall w args zs, valid_w w -> denotes_all canon_udec args zs ->
+  Forall (fun z => 0 <= z) zs -> Z.of_nat (length zs) < 2 ^ 31 ->
+  let it := new_uint w args in
+  (error it = None <-> Z.of_nat (length zs) * w <= MaxByteSize) /\
+  type_code it = 20 + w /\ size_of it = Z.of_nat (length zs) /\
+  num_values it = map (clamp 0 (uint_hi w)) zs.
+Proof. exact clamp_uint_values. Qed.
+Print Assumptions C16_clamp_uint.
+
+(** ** Floats: clampF4 keeps NaN/Inf and every finite value inside +-MaxFloat32, and maps a finite
+    value outside to the bound of the same sign. *)
+Theorem C16_clamp_f4 : forall b, 0 <= b < 2 ^ 64 ->
+  (f64_special b = true -> clamp_f4 b = b) /\
+  (f64_special b = false -> f64_mag b <= maxf32_mag -> clamp_f4 b = b) /\
+  (f64_special b = false -> maxf32_mag < f64_mag b ->
+     clamp_f4 b = f64_sign b * 2 ^ 63 + maxf32_mag /\
+     f64_sign (clamp_f4 b) = f64_sign b /\ f64_mag (clamp_f4 b) = maxf32_mag /\
+     f64_special (clamp_f4 b) = false).
+Proof. exact clamp_f4_spec. Qed.
+Print Assumptions C16_clamp_f4.
+
+Theorem C16_float_values : forall pf w args xs, w = 4 \/ w = 8 -> fdenotes_all pf w args xs ->
+  Z.of_nat (length xs) < 2 ^ 31 ->
+  let it := new_float pf w args in
+  (error it = None <-> Z.of_nat (length xs) * w <= MaxByteSize) /\
+  type_code it = 30 + w /\ size_of it = Z.of_nat (length xs) /\ num_values it = xs.
+Proof. exact float_values. Qed.
+Print Assumptions C16_float_values.
+
+(** ** Order and shape: two argument lists presenting the same numbers give THE SAME item (for every
+    byte size, valid or not), hence Equal items when error-free. *)
+Theorem C16_order_and_shape_int : forall w a1 a2 zs,
+  denotes_all canon_dec a1 zs -> denotes_all canon_dec a2 zs ->
+  new_int w a1 = new_int w a2 /\
+  (error (new_int w a1) = None -> equal (new_int w a1) (new_int w a2) = true).
+Proof. intros; split; [eapply shape_int|eapply shape_int_equal]; eassumption. Qed.
+Print Assumptions C16_order_and_shape_int.
+
+Theorem C16_order_and_shape_uint : forall w a1 a2 zs,
+  denotes_all canon_udec a1 zs -> denotes_all canon_udec a2 zs -> Forall (fun z => 0 <= z) zs ->
+  new_uint w a1 = new_uint w a2 /\
+  (error (new_uint w a1) = None -> equal (new_uint w a1) (new_uint w a2) = true).
+Proof. intros; split; [eapply shape_uint|eapply shape_uint_equal]; eassumption. Qed.
+Print Assumptions C16_order_and_shape_uint.
+
+Theorem C16_order_and_shape_float : forall pf w a1 a2 xs,
+  fdenotes_all pf w a1 xs -> fdenotes_all pf w a2 xs ->
+  new_float pf w a1 = new_float pf w a2 /\
+  (error (new_float pf w a1) = None -> equal (new_float pf w a1) (new_float pf w a2) = true).
+Proof. intros; split; [eapply shape_float|eapply shape_float_equal]; eassumption. Qed.
+Print Assumptions C16_order_and_shape_float.
+
+(** the strconv model on canonical decimals of any magnitude: the value, or the bound with ErrRange *)
+Theorem C16_parse_canon : forall s z, canon_dec s z ->
+  parse_int64 s = if z >? i64max then PRange i64max
+                  else if z <? i64min then PRange i64min else POk z.
+Proof. exact parse_int64_canon. Qed.
+Print Assumptions C16_parse_canon.
+
+(** ** The documented refusals give Error() <> nil *)
+Theorem C16_errors : forall pf w args a, In a args ->
+  (refused_int a -> error (new_int w args) <> None) /\
+  (refused_uint a -> error (new_uint w args) <> None) /\
+  (refused_float pf a -> error (new_float pf w args) <> None) /\
+  (refused_bin a -> error (new_binary args) <> None) /\
+  (refused_bool a -> error (new_boolean args) <> None).
+Proof. exact refusals. Qed.
+Print Assumptions C16_errors.
+
+Theorem C16_errors_byte_size : forall pf w args,
+  (~ valid_w w -> error (new_int w args) <> None /\ error (new_uint w args) <> None) /\
+  (~ (w = 4 \/ w = 8) -> error (new_float pf w args) <> None).
+Proof. exact invalid_byte_size. Qed.
+Print Assumptions C16_errors_byte_size.
+
+Theorem C16_errors_too_long : forall s lsh cs,
+  (MaxByteSize < Z.of_nat (length s) ->
+   error (new_ascii s) <> None /\ error (new_jis8 s) <> None /\ error (new_localized lsh s) <> None) /\
+  (MaxByteSize < Z.of_nat (length cs) -> error (new_list cs) <> None).
+Proof. intros; split; [apply strings_too_long|apply list_too_long]. Qed.
+Print Assumptions C16_errors_too_long.
+
+(** ** The cached clean flag is the recursive answer, at every nesting depth *)
+Theorem C16_clean_flag : forall cs, Forall wf_opt cs -> Z.of_nat (length cs) <= MaxByteSize ->
+  (error (new_list cs) = None <-> Forall (fun c => error c = None) (somes cs)).
+Proof. exact clean_flag. Qed.
+Print Assumptions C16_clean_flag.
+
+Theorem C16_constructors_wf : forall pf w args s lsh cs,
+  wf_item (new_int w args) /\ wf_item (new_uint w args) /\ wf_item (new_float pf w args) /\
+  wf_item (new_binary args) /\ wf_item (new_boolean args) /\ wf_item (new_ascii s) /\
+  wf_item (new_jis8 s) /\ wf_item (new_localized lsh s) /\ wf_item IEmpty /\
+  (Forall wf_opt cs -> wf_item (new_list cs)).
+Proof.
+  intros. destruct (leaf_constructors_wf pf w args s lsh) as (A & B & C & D & E & F & G & H & I).
+  repeat split; try assumption. apply new_list_wf.
+Qed.
+Print Assumptions C16_constructors_wf.
+
+(** ** An errored item is never Equal to anything, in either position, nil included *)
+Theorem C16_never_equal : forall x y, error x <> None ->
+  equal_opt (Some x) y = false /\ equal_opt y (Some x) = false.
+Proof. exact never_equal_opt. Qed.
+Print Assumptions C16_never_equal.
+
+(** ** ... and is refused by the message gate and by every send entry point: nothing reaches the wire *)
+Theorem C16_refused : forall stream function w session sysbytes x, error x <> None ->
+  exists e, new_data_message stream function w session sysbytes (Some x) = inl e.
+Proof. exact refused. Qed.
+Print Assumptions C16_refused.
+
+Theorem C16_refused_send : forall session sysbytes c x, call_item c = Some x -> error x <> None ->
+  exists e, send session sysbytes c = (Some e, []).
+Proof. exact refused_send. Qed.
+Print Assumptions C16_refused_send.
+
+Theorem C16_wire_clean : forall session sysbytes c m,
+  In m (snd (send session sysbytes c)) -> error (m_item m) = None.
+Proof. exact wire_clean. Qed.
+Print Assumptions C16_wire_clean.
+
+Theorem C16_gate_accepts : forall stream function w session sysbytes x,
+  (exists m, new_data_message stream function w session sysbytes (Some x) = inr m) <->
+  stream <= 127 /\ error x = None /\ ~ (w = true /\ function mod 2 = 0).
+Proof. exact gate_accepts. Qed.
+Print Assumptions C16_gate_accepts.
+
+(** ** The int32 element count: the only index expression is safe, but the count wraps *)
+Theorem C16_scalar_index_safe : forall (vs : list Z), size32 vs = 1 -> vs <> [].
+Proof. exact (@size32_one_nonempty Z). Qed.
+
+(** The premise [length < 2^31] of C16_clamp_int/uint/float_values is necessary: the faithful model
+    REFUTES "valid arguments yield exactly the supplied values" beyond it (2^32+1 booleans give an
+    error-free one-element item). Reproduced on the real code: known finding C16-count-int32. *)
+Theorem C16_count_refuted : exists vs : list bool,
+  let it := new_boolean [ABools vs] in
+  error it = None /\ length (bool_values it) <> length vs.
+Proof. exact count_wrap_refuted. Qed.
+Print Assumptions C16_count_refuted.
+
+(** ** Non-vacuity *)
+
+(* "300" "5" | int(300) uint8(5) | []int16{300,5} all denote [300; 5]; I1 stores [127; 5] *)
+Definition s300 : list Z := [51; 48; 48].
+Definition s5 : list Z := [53].
+Lemma canon_300 : canon_dec s300 300.
+Proof. apply CD_pos. apply (CU s300); [discriminate|repeat constructor; unfold is_dig; lia|left; cbn; lia]. Qed.
+Lemma canon_5 : canon_dec s5 5.
+Proof. apply CD_pos. apply (CU s5); [discriminate|repeat constructor; unfold is_dig; lia|left; cbn; lia]. Qed.
+
+Example C16_clamp_int_nonvacuous :
+  denotes_all canon_dec [AInt TInt 300; AInt TUint8 5] [300; 5] /\
+  denotes_all canon_dec [AInts TInt16 [300; 5]] [300; 5] /\
+  denotes_all canon_dec [AStr s300; AStrs [s5]] [300; 5] /\
+  num_values (new_int 1 [AStr s300; AStrs [s5]]) = [127; 5] /\
+  error (new_int 1 [AStr s300; AStrs [s5]]) = None /\
+  300 mod 256 = 44.
+Proof.
+  repeat split.
+  - apply (DA_cons _ _ [300] _ [5]); [apply D_int; unfold in_gty; cbn; lia|].
+    apply (DA_cons _ _ [5] _ []); [apply D_int; unfold in_gty; cbn; lia|constructor].
+  - apply (DA_cons _ _ [300; 5] _ []); [apply D_ints; repeat constructor; unfold in_gty; cbn; lia|constructor].
+  - apply (DA_cons _ _ [300] _ [5]); [apply D_str; exact canon_300|].
+    apply (DA_cons _ _ [5] _ []); [apply D_strs; apply Forall2_cons; [exact canon_5|apply Forall2_nil]|constructor].
+Qed.
+
+Example C16_clamp_uint_nonvacuous :
+  num_values (new_uint 2 [AInt TInt 70000; AInts TUint64 [18446744073709551615; 7]]) = [65535; 65535; 7] /\
+  error (new_uint 2 [AInt TInt (-1)]) = Some ENegative.
+Proof. split; reflexivity. Qed.
+
+Example C16_clamp_f4_nonvacuous :
+  (* 1e39 (0x48078287F49C4A1D) into F4 becomes MaxFloat32; -1e39 becomes -MaxFloat32; +Inf passes *)
+  clamp_f4 5190213388591581725 = maxf32_mag /\
+  clamp_f4 (2 ^ 63 + 5190213388591581725) = 2 ^ 63 + maxf32_mag /\
+  clamp_f4 9218868437227405312 = 9218868437227405312 /\
+  num_values (new_float (fun _ => None) 4 [AF64 5190213388591581725; AInt TInt8 (-2)]) =
+    [maxf32_mag; 13835058055282163712].
+Proof. repeat split; reflexivity. Qed.
+
+Example C16_errors_nonvacuous :
+  refused_int (AStr [120]) /\ refused_uint (AInts TInt8 [1; -1]) /\
+  refused_float (fun _ => None) (AInt TInt64 9007199254740993) /\ refused_bin (AInt TInt 256) /\
+  refused_bool ANil /\
+  error (new_int 4 [AInt TInt 1; AStr [120]]) = Some ESyntax /\
+  error (new_int 3 [AInt TInt 1]) = Some EByteSize.
+Proof.
+  repeat split; try reflexivity.
+  - exists (-1). split; [right; left; reflexivity|lia].
+  - left. reflexivity.
+  - right. reflexivity.
+Qed.
+
+Example C16_clean_flag_nonvacuous :
+  let bad := new_int 1 [ANil] in
+  let inner := new_list [Some (new_ascii [65]); Some bad] in
+  let outer := new_list [Some (new_ascii [66]); None; Some inner] in
+  error bad = Some EType /\ error inner = Some EType /\ error outer = Some EType /\
+  error (new_list [Some (new_list [Some IEmpty]); None]) = None /\
+  (exists e, new_data_message 1 1 true 0 0 (Some outer) = inl e) /\
+  equal outer outer = false.
+Proof. cbv zeta. repeat split; try reflexivity. eexists; reflexivity. Qed.
+
+Example C16_gate_nonvacuous :
+  exists m, new_data_message 1 1 true 7 9 (Some (new_int 2 [AInt TInt 5])) = inr m /\
+            send 7 9 (SendData 1 1 true (Some (new_int 2 [AInt TInt 5]))) = (None, [m]).
+Proof. eexists; split; reflexivity. Qed.
